@@ -20,9 +20,10 @@
        CapsReset = FALSE               second peer offers another base version              C03 prev, C09 preliminary session
        DelimReset # "always"           Open after a session (or after a failed Open) in 1.1 C09 reopen / open again after a failed hello write
        IdReset /\ ~StoreReset          late reply of session 1 filed under a reused id      C05 recovery-reopen, C08 second session
-       PrivReset = FALSE               cached level of the old session                      C07 reopen (network), C04 reopen-late        *)
+       PrivReset = FALSE               cached level of the old session                      C07 reopen (network), C04 reopen-late
+       OpenOnOpen = "as-is"            Open on a session still up (reconnect without Close) C06 open-again-without-close (fix 9754585)   *)
 EXTENDS Naturals, Sequences, FiniteSets, TLC
-CONSTANTS MaxSess, QueueFlush, CapsReset, DelimReset, IdReset, StoreReset, PrivReset
+CONSTANTS MaxSess, QueueFlush, CapsReset, DelimReset, IdReset, StoreReset, PrivReset, OpenOnOpen
 VARIABLES sess, phase, loops, queue, inflight, caps, delim, ver, nextId, store, priv, chClosed, drvClosed, bad
 vars == <<sess, phase, loops, queue, inflight, caps, delim, ver, nextId, store, priv, chClosed, drvClosed, bad>>
 
@@ -35,8 +36,14 @@ Init == /\ sess = 0 /\ phase = "new" /\ loops = {} /\ queue = <<>> /\ inflight =
 Note(b) == bad' = IF bad = "" THEN b ELSE bad
 
 \* ---- Open.  O1: entered; O2: the previous read loop is gone (or was never there); O3: the hello has been read
-OpenStart == /\ phase \in {"new", "closed", "failed"} /\ sess < MaxSess
-             /\ sess' = sess + 1 /\ phase' = "opening"
+\* Open on a session that is still up (a caller that reconnects after an error without closing first): OpenOnOpen =
+\* "shutdown-first" - what the code does since fix 9754585 - closes that session as Close would and opens then; "as-is" (the code
+\* before) goes straight on: no wait for the old read loop, nothing flushed, a second loop on the same queue and signals
+OpenOverOpen == /\ phase = "open" /\ sess < MaxSess /\ OpenOnOpen = "shutdown-first"
+                /\ phase' = "closing" /\ chClosed' = TRUE /\ drvClosed' = TRUE
+                /\ UNCHANGED <<sess, loops, queue, inflight, caps, delim, ver, nextId, store, priv, bad>>
+OpenStart == /\ (phase \in {"new", "closed", "failed"} \/ (phase = "open" /\ OpenOnOpen = "as-is")) /\ sess < MaxSess
+             /\ sess' = sess + 1 /\ phase' = IF phase = "open" THEN "opening-nowait" ELSE "opening"
              \* two "closed" marks: the channel's (set by every close of the channel, also the one a failing Open does itself) and
              \* the driver's (set only when the user called Close); the resets hang on one or the other
              /\ queue' = IF QueueFlush = "open-before-wait" /\ chClosed THEN Flush(queue) ELSE queue
@@ -49,7 +56,7 @@ OpenStart == /\ phase \in {"new", "closed", "failed"} /\ sess < MaxSess
              /\ drvClosed' = FALSE
              /\ UNCHANGED <<loops, inflight, caps, ver, chClosed, bad>>
 \* the wait for the previous loop is bounded in the code (1 s); a read that takes longer than that is outside the model
-OpenWaited == /\ phase = "opening" /\ loops = {}
+OpenWaited == /\ ((phase = "opening" /\ loops = {}) \/ phase = "opening-nowait")
               /\ phase' = "hello"
               /\ queue' = IF QueueFlush = "open-after-wait" /\ chClosed THEN Flush(queue) ELSE queue
               /\ chClosed' = FALSE
@@ -117,12 +124,12 @@ LoopExits(s) == /\ s \in loops /\ (s # sess \/ phase \in {"closing", "closed", "
 CloseDone == /\ phase = "closing" /\ phase' = "closed"
              /\ UNCHANGED <<sess, loops, queue, inflight, caps, delim, ver, nextId, store, priv, chClosed, drvClosed, bad>>
 
-Next == \/ OpenStart \/ OpenWaited \/ (\E v \in {"1.0", "1.1"} : OpenHello(v)) \/ OpenDone \/ OpenFails
+Next == \/ OpenStart \/ OpenOverOpen \/ OpenWaited \/ (\E v \in {"1.0", "1.1"} : OpenHello(v)) \/ OpenDone \/ OpenFails
         \/ Produce \/ ReadUnderWay \/ ReadReturns \/ Consume \/ (\E l \in BOOLEAN : Rpc(l)) \/ Acquire \/ UseCache
         \/ CloseStart \/ (\E s \in loops : LoopExits(s)) \/ CloseDone
 Spec == Init /\ [][Next]_vars
 
-TypeOK == /\ sess \in 0..MaxSess /\ phase \in {"new", "opening", "hello", "selected", "open", "closing", "closed", "failed"}
+TypeOK == /\ sess \in 0..MaxSess /\ phase \in {"new", "opening", "opening-nowait", "hello", "selected", "open", "closing", "closed", "failed"}
           /\ loops \subseteq 1..MaxSess /\ inflight \in 0..MaxSess /\ priv \in 0..MaxSess /\ delim \in {"1.0", "1.1"}
 Clean == bad = ""
 \* at most the loop of the previous session and that of the present one are alive, and never two on the same queue while
